@@ -4,19 +4,27 @@ From Zog Require Import Model.Val Model.Fmt Gen.Tables Proofs.FmtP.
 Import ListNotations.
 Open Scope string_scope.
 
-(** For every built-in test of every schema type and every front end, as the running code produces
-    them (Gen/Tables.v, regenerated on every check), in every shipped language: a non-empty
-    template (or type fallback) whose placeholders are all parameters of that test.  Type "custom"
-    is excluded: see [C11_custom_refuted]. *)
-Theorem C11_catalogue_ok_partial : forall l m e, In (l, m) shipped -> In e catalogue -> fst (fst e) <> "custom" -> entry_ok m e = true.
-Proof. exact catalogue_ok_partial. Qed.
-Print Assumptions C11_catalogue_ok_partial.
+(** For every built-in test of every schema type, every front end and CustomFunc schemas, as the
+    running code produces them (Gen/Tables.v, regenerated on every check), in every shipped
+    language: a non-empty template (or type fallback) whose placeholders are all parameters of that
+    test. *)
+Theorem C11_catalogue_ok : forall l m e, In (l, m) shipped -> In e catalogue -> entry_ok m e = true.
+Proof. exact catalogue_ok. Qed.
+Print Assumptions C11_catalogue_ok.
 
-Theorem C11_custom_refuted : entry_ok lang_en ("custom", "", []) = false /\ entry_ok lang_es ("custom", "", []) = false.
-Proof. exact custom_refuted. Qed.
-Print Assumptions C11_custom_refuted.
+(** the custom type is in the catalogue and described *)
+Theorem C11_custom_described : existsb (fun e => String.eqb (fst (fst e)) "custom") catalogue = true
+  /\ entry_ok lang_en ("custom", "", []) = true /\ entry_ok lang_es ("custom", "", []) = true.
+Proof. exact (conj custom_in_catalogue custom_described). Qed.
+Print Assumptions C11_custom_described.
 
-Theorem C11_no_placeholder_left : forall l m e, In (l, m) shipped -> In e catalogue -> fst (fst e) <> "custom" ->
+(** before the repair the maps had no custom type: the message of a CustomFunc issue was empty *)
+Theorem C11_legacy_custom_refuted : entry_ok (without_type "custom" lang_en) ("custom", "", []) = false
+  /\ default_format (without_type "custom" lang_en) "custom" "custom" [] "" = "".
+Proof. exact legacy_custom_refuted. Qed.
+Print Assumptions C11_legacy_custom_refuted.
+
+Theorem C11_no_placeholder_left : forall l m e, In (l, m) shipped -> In e catalogue ->
   placeholders (sample_message m e) = [] /\ sample_message m e <> "".
 Proof. exact no_placeholder_left. Qed.
 Print Assumptions C11_no_placeholder_left.
